@@ -771,9 +771,52 @@ def check_C13(tier):
                                   "InsideSource only", "TLC evaluates Grammar!PosOfTok and Sem!Eval as written"])
 
 
-CHECKS = {"C13": check_C13, "C12": check_C12, "C11": check_C11, "C17": check_C17, "C09": check_C09, "C10": check_C10, "C01": check_C01, "C02": check_C02, "C05": check_C05, "C06": check_C06, "C07": check_C07,
+# ---------------------------------------------------------------------------
+# C03: soundness on statically typed programs, rejection of single typing faults
+
+C03_SOUND = {"quick": [("arith", 4), ("logic", 4), ("string", 4), ("coll", 4), ("access", 4), ("builtin", 5), ("promo", 3)],
+             "thorough": [("arith", 5), ("logic", 5), ("string", 5), ("coll", 5), ("access", 5), ("builtin", 6), ("promo", 3),
+                          ("mixed", 5)]}
+C03_REJECT = {"quick": [("logic", 3), ("access", 3), ("builtin", 4)], "thorough": [("logic", 4), ("access", 4), ("builtin", 5), ("coll", 4)]}
+C03_MODES = "struct:noopt,struct:opt,struct:opt:asbool,struct:opt:asint64,struct:noopt:asfloat64"
+
+
+def stages_C03(tier):
+    out = []
+    for fam, n in C03_SOUND[tier]:
+        out.append(Stage("sound-%s-n%d" % (fam, n), "MC_Expr", gen_cfg(fam, n), "C03S", modes=C03_MODES))
+    for fam, n in C03_REJECT[tier]:
+        out.append(Stage("reject-%s-n%d" % (fam, n), "MC_Err", err_cfg(fam, n, "reject"), "C03R",
+                         modes="struct:opt,struct:noopt", timeout=2400))
+    sim_n = 300 if tier == "quick" else 4000
+    for fam in ("mixed", "builtin"):
+        out.append(Stage("sound-%s-sim" % fam, "MC_Expr", gen_cfg(fam, 12, maxclosure=3), "C03S", modes=C03_MODES,
+                         simulate=sim_n, depth=14, warm=False))
+    return out
+
+
+C03_RULE = ("(soundness) the TLC-enumerated expressions of the evaluation families that are statically typed throughout "
+            "(Types!FullyTyped: no operand of dynamic type) x every assignment: a program the real checker accepts must "
+            "fail only where the reference semantics fails (a real failure where Sem!Eval succeeds is a failure for a type "
+            "reason), a successful result must be assignable to the type the real checker.Check reports, and under "
+            "AsBool / AsInt64 / AsFloat64 it must be exactly bool / int64 / float64 with the converted value (Prim!Conv), "
+            "a non-boolean expression being rejected under AsBool; (rejection) every expression of three families x "
+            "every leaf x 28 single violations of a typing rule (unknown identifier/field/method/function, mismatched "
+            "operand types at unary, binary and matches operators, wrong arity, wrong argument type incl. arithmetic "
+            "arguments, non-boolean condition and predicate, non-collection builtin argument, bad index/slice/range/"
+            "membership operands): Compile must reject each; non-trivial = a typed expression of >= 3 nodes, or a fault")
+
+
+def check_C03(tier):
+    return run_check("C03", tier, stages_C03(tier), C03_RULE,
+                     assumptions=EVAL_ASSUME + ["the reference typing rules are those of DESIGN.md appendix G",
+                                                "completeness (accepting every well-typed expression) is not claimed: "
+                                                "a rejection of a well-typed expression is counted, not reported"])
+
+
+CHECKS = {"C03": check_C03, "C13": check_C13, "C12": check_C12, "C11": check_C11, "C17": check_C17, "C09": check_C09, "C10": check_C10, "C01": check_C01, "C02": check_C02, "C05": check_C05, "C06": check_C06, "C07": check_C07,
           "C14": check_C14, "C15": check_C15, "C18": check_C18}
-STAGES = {"C13": stages_C13, "C12": stages_C12, "C11": stages_C11, "C17": stages_C17, "C09": stages_C09, "C10": stages_C10, "C01": stages_C01, "C02": stages_C02, "C05": stages_C05, "C06": stages_C06, "C07": stages_C07,
+STAGES = {"C03": stages_C03, "C13": stages_C13, "C12": stages_C12, "C11": stages_C11, "C17": stages_C17, "C09": stages_C09, "C10": stages_C10, "C01": stages_C01, "C02": stages_C02, "C05": stages_C05, "C06": stages_C06, "C07": stages_C07,
           "C14": stages_C14, "C15": stages_C15, "C18": stages_C18}
 
 
